@@ -200,6 +200,16 @@ func c07Competitors(outp *[]c07Case, f fieldRef, p, cv, other textVal, isNested 
 					{f.path + "=" + cv.texts[0], f.json + "=" + other.texts[0]},
 					{"uint64_value=5", f.path + "=" + cv.texts[0], "string_list=zz"},
 					{f.path + "=" + p.texts[0]}, // the same value again: must be harmless
+					// a long query of mixed depth (more than a dozen parameters, nested ones among
+					// them) around the competitor: whatever larking does to order or group the
+					// parameters, the path capture stays last
+					c07LongQuery(f.path, cv.texts[0], 0),
+					c07LongQuery(f.path, cv.texts[0], 9),
+					c07LongQuery(f.json, cv.texts[0], 16),
+				}
+				if md := f.leaf().Message(); md != nil && strings.HasSuffix(string(md.FullName()), "Value") && strings.HasPrefix(string(md.FullName()), "google.protobuf.") {
+					// a wrapper bound in the path, attacked through its inner field
+					qs = append(qs, []string{f.path + ".value=" + cv.texts[0]}, []string{f.json + ".value=" + cv.texts[0], "uint64_value=5"})
 				}
 				for _, rule := range []string{"pv", "pb", "pn"} {
 					if rule == "pn" && false {
@@ -229,9 +239,31 @@ func c07Competitors(outp *[]c07Case, f fieldRef, p, cv, other textVal, isNested 
 	}
 }
 
+// c07LongQuery: 16 unrelated parameters (top-level scalars, repeated fields, nested fields)
+// with the competitor key=val inserted at position at.
+func c07LongQuery(key, val string, at int) []string {
+	others := []string{"uint64_value=5", "string_list=zz", "nested.uint32_value=3", "sint32_value=2", "nested.sint64_value=-4", "fixed32_value=3",
+		"bool_list=true", "string_list=yy", "nested.fixed64_value=8", "uint32_list=9", "sfixed64_value=4", "float_list=2.5", "nested.sfixed32_value=-1",
+		"int64_list=6", "fixed64_value=11", "nested.fixed32_value=12"}
+	var out []string
+	for i, o := range others {
+		if i == at {
+			out = append(out, key+"="+val)
+		}
+		if strings.HasPrefix(o, key+"=") {
+			continue // the unrelated parameters never name the field under test
+		}
+		out = append(out, o)
+	}
+	if at >= len(others) {
+		out = append(out, key+"="+val)
+	}
+	return out
+}
+
 func runC07(c *Ctx) {
 	r := c.Run
-	r.Rule("every path-bindable field of ComplexRequest (15 scalar kinds, enum, wrappers; top-level and nested) × rules {no body, body '*', body 'nested'} × 2 captured values (thorough: every path-safe value) × every other boundary value as competitor (thorough: in every accepted spelling) delivered through the query (proto name, JSON name, twice, mixed, among other keys, same value again), the body (JSON, protobuf, ± unrelated fields) and both; distinct = (field, rule, competitor channel) classes")
+	r.Rule("every path-bindable field of ComplexRequest (15 scalar kinds, enum, wrappers; top-level and nested) × rules {no body, body '*', body 'nested'} × 2 captured values (thorough: every path-safe value) × every other boundary value as competitor (thorough: in every accepted spelling) delivered through the query (proto name, JSON name, twice, mixed, among other keys, inside 17-parameter queries of mixed nesting depth at three positions, same value again; wrappers also through their inner '.value' field), the body (JSON, protobuf, ± unrelated fields) and both; distinct = (field, rule, competitor channel) classes")
 	r.Assume("a request that is refused with an error (status >= 400, handler not invoked) also keeps the path value authoritative")
 	e0, err := newC03Env()
 	if err != nil {
